@@ -24,7 +24,7 @@ PARENTS = {
     'roll21': lambda inner: [rs.data.roll(2, 1, inner)],
     'roll32': lambda inner: [rs.data.roll(3, 2, inner)],
     'roll13': lambda inner: [rs.data.roll(1, 3, inner)],
-    'split': lambda inner: [rs.data.split(C.KM['tup2'], inner)],
+    'split': lambda inner: [rs.data.split(C.PRED['tup2'], inner)],
     'tsplit': lambda inner: [rs.data.time_split(lambda i: i, inactive_timeout=2, pipeline=inner)],
     'group_roll': lambda inner: [rs.ops.group_by(C.KM['mod2'], [rs.data.roll(2, 2, inner)])],
 }
